@@ -422,7 +422,7 @@ fn sys_cases(rng: &mut Rng, n: u64) -> Vec<(SysCase, Vec<u8>, &'static str)> {
                 "stop;rewind;play",
             ),
         };
-        out.push((SysCase { tape, ops }, c11::encode(&expect), name));
+        out.push((SysCase { tape, ops, fastload: false }, c11::encode(&expect), name));
     }
     out
 }
@@ -527,6 +527,14 @@ deck commands, deck stopped at the end) of histories in which at least one edge 
     let mut rng = Rng::new(o.seed ^ 0x5C12);
     for (c, expect, name) in sys_cases(&mut rng, o.n(8, 200)) {
         rep.count("cases", format!("system: {}", name));
+        if let Some(d) = c11::run_sys_case(&mut m10, &c, &expect, "C12", Some(&mut rep)) {
+            report_sys(&mut rep, &c, &expect, d, name);
+        }
+    }
+    // 2b. fast loading and real-time play on one tape
+    for (c, name) in c11::mixed_cases(&mut rng, o.n(8, 120)) {
+        rep.count("cases", format!("system: {}", name));
+        let expect = c.tape.clone();
         if let Some(d) = c11::run_sys_case(&mut m10, &c, &expect, "C12", Some(&mut rep)) {
             report_sys(&mut rep, &c, &expect, d, name);
         }
